@@ -238,7 +238,85 @@ class CallMixin:
                 res = z3.If(v.z < res, v.z, res)
             yield SV(INT, res), s
 
+    def bi_getattr(self, e, st):
+        """getattr(x, 'name', default) with a literal name: the attribute if x has it, else the default (None has no attributes)"""
+        if len(e.args) != 3 or not isinstance(e.args[1], ast.Constant):
+            _unsup('getattr without literal name and default', e)
+        for (x, d), s in self.ev_many([e.args[0], e.args[2]], st):
+            attr = e.args[1].value
+            if not isinstance(x, SeqV) and x.ty.kind == 'opt' and x.ty.args[0].kind == 'obj':
+                inner = list(self.getattr(opt_val(x), attr, s.copy(), e))[0][0] if self.reg.find_field(x.ty.args[0].args[0], attr) or \
+                    any(attr in self.reg.classes[c].fields for c in self.reg.subclasses(x.ty.args[0].args[0])) else None
+                if inner is None:
+                    yield d, s
+                    continue
+                ty = self.join_types([inner.ty, d.ty])
+                yield SV(ty, z3.If(opt_is_none(x), self.coerce(d, ty, s).z, self.coerce(inner, ty, s).z)), s
+            elif not isinstance(x, SeqV) and x.ty.kind == 'obj':
+                if self.reg.find_field(x.ty.args[0], attr):
+                    yield from self.getattr(x, attr, s, e)
+                else:
+                    yield d, s
+            else:
+                _unsup('getattr on %r' % (x.ty,), e)
+
+    def bi_id(self, e, st):
+        for v, s in self.ev(e.args[0], st):
+            if isinstance(v, SeqV) or not v.ty.is_ref:
+                _unsup('id() of a non-object', e)
+            idf = z3.Function('id_of', Ref, I)
+            a_, b_ = z3.Consts('r!ia r!ib', Ref)
+            s.assume(z3.ForAll([a_, b_], z3.Implies(idf(a_) == idf(b_), a_ == b_), patterns=[z3.MultiPattern(idf(a_), idf(b_))]))   # ids of live objects are distinct
+            yield SV(INT, idf(v.z)), s
+
+    def bi_sorted(self, e, st):
+        """sorted(xs, key=attrgetter('p') | lambda): a fresh list, permutation of xs ordered by the key (assumed builtin contract)"""
+        kw = {k.arg: k.value for k in e.keywords}
+        key = kw.get('key')
+        if len(e.args) != 1 or key is None:
+            _unsup('sorted without key', e)
+        if isinstance(key, ast.Call) and isinstance(key.func, ast.Name) and key.func.id == 'attrgetter' and len(key.args) == 1 and isinstance(key.args[0], ast.Constant):
+            lam = ast.parse('lambda _x: _x.%s' % key.args[0].value, mode='eval').body
+        elif isinstance(key, ast.Lambda):
+            lam = key
+        else:
+            _unsup('sorted key form', e)
+        for src, s in self.ev(e.args[0], st):
+            if isinstance(src, SeqV) or src.ty.kind not in ('list', 'set'):
+                sq = self.seq_of(src, s)
+            elif src.ty.kind == 'set':
+                sq = self.enumeration(('set', src), s)
+            else:
+                sq = s.list_seq(src)
+            lst = self.new_list(s, sq.elem, sq.arr, sq.n, 'sorted')
+            call = ast.Call(func=ast.Attribute(value=ast.Name(id='_tmp', ctx=ast.Load()), attr='sort', ctx=ast.Load()), args=[],
+                            keywords=[ast.keyword(arg='key', value=lam)] + [k for k in e.keywords if k.arg == 'reverse'])
+            ast.copy_location(call, e)
+            ast.fix_missing_locations(call)
+            for _, s2 in self.m_list_sort(lst, call, s):
+                yield lst, s2
+
     def bi_max(self, e, st):
+        if len(e.args) == 1 and isinstance(e.args[0], (ast.GeneratorExp, ast.ListComp)):
+            # max over a comprehension: an upper bound that is attained; ValueError on an empty one
+            gexp = e.args[0]
+            gen = gexp.generators[0]
+            vars_, rng, env, sq = self.bind_comprehension(gen, st)
+            s2 = st.copy()
+            s2.env.update(env)
+            was = self.specmode
+            self.specmode += 1
+            try:
+                elt = self.ev1(gexp.elt, s2)
+                conds = [self.truthy(self.ev1(c, s2), s2) for c in gen.ifs]
+            finally:
+                self.specmode = was
+            m = fresh('max', I)
+            nonempty = z3.Exists(vars_, z3.And(rng, *conds))
+            self.check(st, nonempty, 'ValueError', 'max.empty', e)
+            st.assume(z3.ForAll(vars_, z3.Implies(z3.And(rng, *conds), elt.z <= m)), z3.Exists(vars_, z3.And(rng, *conds, elt.z == m)))
+            yield SV(INT, m), st
+            return
         for vs, s in self.ev_many(e.args, st):
             res = vs[0].z
             for v in vs[1:]:
@@ -605,7 +683,8 @@ class CallMixin:
                 self.specmode = was
         (ki, si), (kj, sj) = key(z3.Select(new, i)), key(z3.Select(new, j))
         smaller = self.compare(ast.Gt() if rev else ast.Lt(), kj, ki, st, e)      # key[j] strictly before key[i] in the requested order
-        sides = si.pc[len(st.pc):] + sj.pc[len(st.pc):]       # facts about the values the key reads (contracts of properties it calls)
+        tids = getattr(self, '_typing_ids', set())
+        sides = [f for f in si.pc[len(st.pc):] + sj.pc[len(st.pc):] if f.get_id() not in tids]   # facts about the values the key reads (typing facts hold anyway)
         st.assume(z3.ForAll([i, j], z3.Implies(z3.And(0 <= i, i < j, j < old.n), z3.Implies(z3.And(*sides), z3.Not(smaller))) if sides else
                             z3.Implies(z3.And(0 <= i, i < j, j < old.n), z3.Not(smaller))),
                   z3.ForAll([i], z3.Implies(z3.And(0 <= i, i < old.n), z3.Exists([j], z3.And(0 <= j, j < old.n, z3.Select(new, i) == z3.Select(old.arr, j)))), patterns=[z3.Select(new, i)]),
@@ -1011,7 +1090,9 @@ class CallMixin:
                     n = ast.parse(en.strip(), mode='eval').body
                     if isinstance(n, ast.Compare) and len(n.ops) == 1 and isinstance(n.ops[0], ast.Eq) and isinstance(n.left, ast.Name) and n.left.id == 'result':
                         v, sides = self.spec(ast.unparse(n.comparators[0]), post, env=env, old=pre)
-                        if not sides and not isinstance(v, SeqV):
+                        tids = getattr(self, '_typing_ids', set())
+                        if all(f.get_id() in tids for f in sides) and not isinstance(v, SeqV):
+                            post.assume(*sides)
                             inlined = self.coerce(v, c.returns, post)
                             break
         if inlined is not None:
